@@ -1,6 +1,61 @@
-(* Runner for property C18: wire arguments -> model -> wire result. Filled in by the C18 model. *)
+(* Runner for property C18: the reference rules of Defs/RefCheck.v over the GENERATED tables.
+     c18 check ( x<regime> ( x<addon> ... ) x<schema> ( x<tag> ... )
+                 ( ( x<path> x<cat> x<rate> x<country> ( ( x<key> x<value> ) ... ) ) ... )
+                 ( ( x<path> x<key> x<value> ) ... )
+                 ( ( x<path> x<code> ) ... )
+                 ( ( x<path> x<kind: iso|tax|regime|combo> x<code> ) ... ) )
+        (the view printed by `vharness` c18 refs / c18 run)
+     ->  repaired shipped ( ( x<kind> x<path> x<detail> ) ... ) ( ... )
+        verdict (1/0) of validate_refs and of validate_refs_shipped over in_code_defs with the
+        matcher simple_match, then the items failing the repaired rules and the shipped rules;
+     c18 check-published ( view ) -> the same over published_defs;
+     c18 match x<pattern> x<value> -> supported(1/0) matches(1/0). *)
 From Coq Require Import ZArith List String Bool.
-From Verif Require Import Base.Wire.
+From Verif Require Import Base.Wire Defs.DefTypes Defs.DefEq Defs.RefCheck Defs.RefTables.
 Import ListNotations.
+Open Scope Z_scope.
 
-Definition run_c18 (args : list V) : list V := [verr "not-implemented"].
+Definition c18_kind (s : bytes) : country_kind :=
+  if eqb_bytes s (bs "iso") then CkISO
+  else if eqb_bytes s (bs "regime") then CkRegime
+  else if eqb_bytes s (bs "combo") then CkCombo
+  else CkTax.
+
+Definition c18_nth (l : list V) (n : nat) : V := nth n l (VS []).
+
+Definition c18_view (v : V) : doc_refs :=
+  let l := vl v in
+  mkDocRefs (vs_ (c18_nth l 0)) (map vs_ (vl (c18_nth l 1))) (vs_ (c18_nth l 2)) (map vs_ (vl (c18_nth l 3)))
+    (map (fun c => let x := vl c in
+                   mkComboRef (vs_ (c18_nth x 0)) (vs_ (c18_nth x 1)) (vs_ (c18_nth x 2)) (vs_ (c18_nth x 3))
+                              (map (fun p => (vs_ (c18_nth (vl p) 0), vs_ (c18_nth (vl p) 1))) (vl (c18_nth x 4))))
+         (vl (c18_nth l 4)))
+    (map (fun e => let x := vl e in mkExtRef (vs_ (c18_nth x 0)) (vs_ (c18_nth x 1)) (vs_ (c18_nth x 2))) (vl (c18_nth l 5)))
+    (map (fun e => let x := vl e in mkCurrencyRef (vs_ (c18_nth x 0)) (vs_ (c18_nth x 1))) (vl (c18_nth l 6)))
+    (map (fun e => let x := vl e in mkCountryRef (vs_ (c18_nth x 0)) (c18_kind (vs_ (c18_nth x 1))) (vs_ (c18_nth x 2)))
+         (vl (c18_nth l 7))).
+
+Definition c18_items (l : list (str * str * str)) : V :=
+  VL (map (fun it => VL [VS (fst (fst it)); VS (snd (fst it)); VS (snd it)]) l).
+
+Definition c18_check (d : defs) (v : V) : list V :=
+  let r := c18_view v in
+  [ VB (validate_refs simple_match d r); VB (validate_refs_shipped simple_match d r);
+    c18_items (failing_items simple_match repaired_rules d r);
+    c18_items (failing_items simple_match shipped_rules d r) ].
+
+Definition run_c18 (args : list V) : list V :=
+  match args with
+  | o :: rest =>
+    if String.eqb (opname o) "check" then
+      match rest with v :: _ => c18_check in_code_defs v | [] => [verr "bad-c18-args"] end
+    else if String.eqb (opname o) "check-published" then
+      match rest with v :: _ => c18_check published_defs v | [] => [verr "bad-c18-args"] end
+    else if String.eqb (opname o) "match" then
+      match rest with
+      | p :: v :: _ => [VB (pattern_supported (vs_ p)); VB (simple_match (vs_ p) (vs_ v))]
+      | _ => [verr "bad-c18-args"]
+      end
+    else [verr "unknown-c18-op"]
+  | [] => [verr "unknown-c18-op"]
+  end.
